@@ -345,7 +345,7 @@ def rule_py_seed(ctx, py, R="C08.PY-SEED"):
             ctx.check(pyfe.src(call.args[i]) == "ctypes.c_int(script.rng_seed)", R, call.args[i], fn._qual,
                       "%s seed <- %s" % (name, pyfe.src(call.args[i])), "the script's seed", "another seed is handed to the engine")
     su = py.fn("librdengine.LibRDEngine.setup")
-    first = [st for st in su.body if isinstance(st, ast.Assign)][0]
+    first = pyfe.first_touching(su, {"script", "_script"}) or su.body[0]      # the first statement that concerns the script
     ctx.check(pyfe.src(first) == "self._script = script.copy()", R, first, su._qual, pyfe.src(first),
               "the engine keeps a copy of the script whose seed it uses", "")
     go = py.fn("librdengine.LibRDEngine.get_output")
